@@ -47,4 +47,19 @@ META['C04'] = {
   'level_text': 'Proved in Coq for every history: containsLeaf accepts a (element hash, index, spent, proof) only if exactly that leaf is the current leaf at that index of the true forest and the proof is its forest path, otherwise a concrete hash collision is exhibited; live leaves are accepted; wrong-height proofs rejected. Tied to the Go containsLeaf by recomputation of genuine and mutated membership queries on generated histories.',
 }
 
+META['C16'] = {
+  'rule': ('MetaRoot for every count 0..70 (thorough 0..300); every (n,start,end) with n<=14 (thorough 40): BuildSectorRangeProof, RangeProofSize, VerifySectorRangeProof/VerifySectorRootsProof, '
+           'with every single-element corruption (each proof hash, each covered datum, root, index shift, proof one shorter at either end / one longer) on all n<=7 (12) and a sample beyond; random larger n incl. powers of two +-1; '
+           'append proofs (v4 BuildAppendProof/VerifyAppendSectorsProof, v2 VerifyAppendProof) for n=0..20 (80) x batch sizes 1,2,3,7 with corruptions; free-sector proofs for all non-empty subsets of n<=6 (10) in shuffled order and random larger; '
+           'general v2 diff proofs over random swap/trim/append sequences with corruptions; data-level ReaderRoot for 15 sizes with random reader chunkings on both CPU paths (cpu.X86.HasAVX2 toggled) recomputed by the model from the raw bytes; '
+           'full 4 MiB sectors: SectorRoot = ReadSectorRoot = ReaderRoot = v4 SectorRoot = plain tree on both CPU paths, BuildProof/BuildSectorProof(cache) = plain range proof, RangeProofVerifier accept/reject, VerifyLeafProof, ConvertProofOrdering. '
+           'every Go result is recomputed by the extracted model (Merkle/Rhp.v) with real BLAKE2b; oracle on the Go side: honest accepted, corrupted rejected, sizes match, roots equal the plain recursive tree'),
+  'trusted_base': [KERNEL, EXTRACT, HARNESS, BLAKE,
+                   'AVX2 assembly, unsafe casts and goroutine fan-out of SectorRoot are compared on data (both CPU paths), not modelled',
+                   'full-sector proofs are compared on the Go side against the plain range proof over generic leaf hashes; the model recomputes 128-leaf subtrees from raw data and all proof algorithms over hash lists'],
+  'assumptions': ['completeness/soundness of the range, append and diff proof algorithms against the plain tree are correspondence + corruption enumeration, not yet theorems; proved: the accumulators are the binary-numeral forest over exactly the inserted leaves; proof completeness/soundness within one perfect tree',
+                  'the element count given to verifiers is a trusted input (as the property states)'],
+  'level_text': 'Proved: the verifier accumulators (insertNode at height 0 / AddLeaf) maintain a forest of perfect trees over exactly the inserted leaves (digit i of height i, count = numeral value); Merkle path completeness and soundness (mod exhibited node collision) inside a perfect tree. The executable model of MetaRoot, range/append/diff/free proofs, sizes and ConvertProofOrdering reproduces every Go result on exhaustive small and random inputs incl. all single-element corruptions. Partial: the general completeness/soundness theorems for the range/diff algorithms over the plain tree are not yet proved.',
+}
+
 NOT_YET = {}
